@@ -2,11 +2,11 @@ package main
 
 import (
 	"fmt"
-	"go/ast"
 	"go/token"
-	"go/types"
 	"sort"
 	"strings"
+
+	"golang.org/x/tools/go/ssa"
 )
 
 // R-GRAMMAR (C04): the precedence chain of the recursive-descent expression parser, extracted and
@@ -24,243 +24,6 @@ type gLevel struct {
 	rights []string
 	node   string
 	issues []string
-}
-
-type gram struct {
-	c     *Ctx
-	info  *types.Info
-	decls map[string]*ast.FuncDecl
-}
-
-func (g *gram) tokName(e ast.Expr) string {
-	if se, ok := e.(*ast.SelectorExpr); ok {
-		if id, ok := se.X.(*ast.Ident); ok && id.Name == "lexer" {
-			return se.Sel.Name
-		}
-	}
-	return ""
-}
-
-// methodValue: p.X used as a value -> "X"
-func methodValue(e ast.Expr) string {
-	if se, ok := e.(*ast.SelectorExpr); ok {
-		if _, ok := se.X.(*ast.Ident); ok {
-			return se.Sel.Name
-		}
-	}
-	return ""
-}
-
-type gEnv struct {
-	funcs map[string]string // func-typed parameter name -> bound method name
-	toks  []string          // tokens bound to a variadic token parameter
-	tokP  string            // name of that parameter
-}
-
-// resolve a callee expression to a grammar function name under env.
-func (g *gram) callee(call *ast.CallExpr, env *gEnv, self string) string {
-	switch f := call.Fun.(type) {
-	case *ast.Ident:
-		if v, ok := env.funcs[f.Name]; ok {
-			return v
-		}
-	case *ast.SelectorExpr:
-		name := f.Sel.Name
-		if _, ok := g.decls[name]; !ok {
-			return ""
-		}
-		// helper applied to the same bound function(s): p._assign(higher) inside _assign
-		if name == self {
-			return "self"
-		}
-		// p.regexStr(higher) parses either a regex or `higher`
-		if name == "regexStr" && len(call.Args) == 1 {
-			if id, ok := call.Args[0].(*ast.Ident); ok {
-				if v, ok := env.funcs[id.Name]; ok {
-					return v
-				}
-			}
-			if mv := methodValue(call.Args[0]); mv != "" {
-				return mv
-			}
-		}
-		if name == "exprList" && len(call.Args) == 1 {
-			if mv := methodValue(call.Args[0]); mv != "" {
-				return mv
-			}
-		}
-		return name
-	}
-	return ""
-}
-
-func (g *gram) returnsExpr(fd *ast.FuncDecl) bool {
-	if fd.Type.Results == nil || len(fd.Type.Results.List) != 1 {
-		return false
-	}
-	t := g.info.TypeOf(fd.Type.Results.List[0].Type)
-	return t != nil && (types.TypeString(t, func(*types.Package) string { return "" }) == "Expr" || strings.HasSuffix(types.TypeString(t, nil), "ast.Expr"))
-}
-
-// level analyses function `name` under env.
-func (g *gram) level(name string, env *gEnv, depth int) *gLevel {
-	lv := &gLevel{fn: name}
-	fd := g.decls[name]
-	if fd == nil || fd.Body == nil || depth > 4 {
-		lv.issues = append(lv.issues, "function "+name+" not found")
-		return lv
-	}
-	// A: single return of a helper call
-	if len(fd.Body.List) == 1 {
-		if ret, ok := fd.Body.List[0].(*ast.ReturnStmt); ok && len(ret.Results) == 1 {
-			if call, ok := ret.Results[0].(*ast.CallExpr); ok {
-				if h := methodValue(call.Fun); h != "" && g.decls[h] != nil {
-					hd := g.decls[h]
-					ne := &gEnv{funcs: map[string]string{}}
-					// map parameters
-					var params []*ast.Field
-					for _, f := range hd.Type.Params.List {
-						for range f.Names {
-							params = append(params, f)
-						}
-					}
-					pi := 0
-					var pnames []string
-					for _, f := range hd.Type.Params.List {
-						for _, nm := range f.Names {
-							pnames = append(pnames, nm.Name)
-						}
-					}
-					for _, a := range call.Args {
-						if pi >= len(params) {
-							pi = len(params) - 1
-						}
-						pf := params[pi]
-						_, variadic := pf.Type.(*ast.Ellipsis)
-						if mv := methodValue(a); mv != "" && g.decls[mv] != nil {
-							ne.funcs[pnames[pi]] = mv
-						} else if id, ok := a.(*ast.Ident); ok && env != nil && env.funcs[id.Name] != "" {
-							ne.funcs[pnames[pi]] = env.funcs[id.Name]
-						} else if t := g.tokName(a); t != "" {
-							ne.toks = append(ne.toks, t)
-							ne.tokP = pnames[pi]
-						}
-						if !variadic {
-							pi++
-						}
-					}
-					sub := g.level(h, ne, depth+1)
-					sub.fn = name
-					return sub
-				}
-			}
-		}
-	}
-	if env == nil {
-		env = &gEnv{funcs: map[string]string{}}
-	}
-	// B: body analysis
-	self := name
-	var stmts []ast.Stmt = fd.Body.List
-	// left operand: first `x := CALL` whose callee is a grammar function
-	for _, s := range stmts {
-		as, ok := s.(*ast.AssignStmt)
-		if !ok || len(as.Rhs) != 1 {
-			continue
-		}
-		call, ok := as.Rhs[0].(*ast.CallExpr)
-		if !ok {
-			continue
-		}
-		if cal := g.callee(call, env, self); cal != "" {
-			lv.left = cal
-			break
-		}
-	}
-	// the operator construct: first top-level for/if whose condition tests the token
-	for _, s := range stmts {
-		var cond ast.Expr
-		var body *ast.BlockStmt
-		kind := ""
-		switch x := s.(type) {
-		case *ast.ForStmt:
-			cond, body, kind = x.Cond, x.Body, "loop"
-		case *ast.IfStmt:
-			cond, body, kind = x.Cond, x.Body, "if"
-		default:
-			continue
-		}
-		if cond == nil || !strings.Contains(types.ExprString(cond), "p.tok") && !strings.Contains(types.ExprString(cond), "p.matches") {
-			continue
-		}
-		// tokens
-		ast.Inspect(cond, func(n ast.Node) bool {
-			switch x := n.(type) {
-			case *ast.CallExpr:
-				if methodValue(x.Fun) == "matches" {
-					if x.Ellipsis.IsValid() {
-						lv.ops = append(lv.ops, env.toks...)
-					}
-					for _, a := range x.Args {
-						if t := g.tokName(a); t != "" {
-							lv.ops = append(lv.ops, t)
-						}
-					}
-				}
-			case *ast.BinaryExpr:
-				if x.Op == token.EQL && types.ExprString(x.X) == "p.tok" {
-					if t := g.tokName(x.Y); t != "" {
-						lv.ops = append(lv.ops, t)
-					}
-				}
-			}
-			return true
-		})
-		// right operands and node
-		ast.Inspect(body, func(n ast.Node) bool {
-			switch x := n.(type) {
-			case *ast.CallExpr:
-				if cal := g.callee(x, env, self); cal != "" && g.isExprParser(cal) {
-					lv.rights = append(lv.rights, cal)
-				}
-			case *ast.CompositeLit:
-				if nt := named(g.info.TypeOf(x)); nt != nil && lv.node == "" {
-					lv.node = nt.Obj().Name()
-					// a literal operator (Op: lexer.CONCAT / lexer.POW) replaces start-token sets
-					for _, el := range x.Elts {
-						if kv, ok := el.(*ast.KeyValueExpr); ok && isIdent(kv.Key, "Op") {
-							if t := g.tokName(kv.Value); t != "" {
-								if t == "CONCAT" {
-									lv.ops = []string{"CONCAT"}
-								}
-							}
-						}
-					}
-				}
-			}
-			return true
-		})
-		switch {
-		case kind == "loop":
-			lv.assoc = "left"
-		case containsStr(lv.rights, "self"):
-			lv.assoc = "right"
-		default:
-			lv.assoc = "none"
-		}
-		break
-	}
-	sort.Strings(lv.ops)
-	lv.ops = uniq(lv.ops)
-	return lv
-}
-
-func (g *gram) isExprParser(name string) bool {
-	if name == "self" {
-		return true
-	}
-	fd := g.decls[name]
-	return fd != nil && g.returnsExpr(fd)
 }
 
 func containsStr(xs []string, s string) bool {
@@ -289,40 +52,26 @@ type gWant struct {
 }
 
 func ruleGrammar(c *Ctx) {
-	pp := c.pkg("parser")
-	g := &gram{c: c, info: pp.TypesInfo, decls: map[string]*ast.FuncDecl{}}
-	for _, fd := range c.allFuncDecls("parser") {
-		if fd.Recv != nil {
-			g.decls[fd.Name.Name] = fd
+	g := newGssa(c)
+	if g == nil {
+		c.undecided("anchor:parser-ssa", token.NoPos, "package parser (struct parser, field tok, ast.Expr, lexer tokens) not resolvable")
+		return
+	}
+	posOf := func(name string) token.Pos {
+		if fn := g.methods[name]; fn != nil {
+			return fn.Pos()
 		}
+		return token.NoPos
 	}
 	// entry points: the function simpleStmt's default case calls (general), and the one the print argument list uses
 	general, printCtx := "expr", "printExpr"
-	if g.decls[general] == nil || g.decls[printCtx] == nil {
+	if g.methods[general] == nil || g.methods[printCtx] == nil {
 		c.undecided("anchor:entry", token.NoPos, "entry points expr/printExpr not found")
 		return
 	}
+	primary := "primary"
 	assignOps := "ADD_ASSIGN ASSIGN DIV_ASSIGN MOD_ASSIGN MUL_ASSIGN POW_ASSIGN SUB_ASSIGN"
-	chainFor := func(entry string) []*gLevel {
-		var chain []*gLevel
-		cur := entry
-		seen := map[string]bool{}
-		for cur != "" && !seen[cur] && len(chain) < 24 {
-			seen[cur] = true
-			if cur == "primary" {
-				break
-			}
-			var lv *gLevel
-			if cur == "getline" {
-				lv = g.getlineLevel()
-			} else {
-				lv = g.level(cur, nil, 0)
-			}
-			chain = append(chain, lv)
-			cur = lv.left
-		}
-		return chain
-	}
+	chainFor := func(entry string) []*gLevel { return g.chain(entry, primary) }
 	check := func(ctx, entry string, want []gWant) {
 		chain := chainFor(entry)
 		var got []string
@@ -330,16 +79,13 @@ func ruleGrammar(c *Ctx) {
 			got = append(got, fmt.Sprintf("%s[%s]%s", lv.fn, strings.Join(lv.ops, " "), lv.assoc))
 		}
 		if len(chain) != len(want) {
-			c.bad("chain:"+ctx+":length", g.decls[entry].Pos(), "the %s expression grammar has %d precedence levels (%s), the POSIX table has %d", ctx, len(chain), strings.Join(got, " < "), len(want))
+			c.bad("chain:"+ctx+":length", posOf(entry), "the %s expression grammar has %d precedence levels (%s), the POSIX table has %d", ctx, len(chain), strings.Join(got, " < "), len(want))
 			return
 		}
 		for i, w := range want {
 			lv := chain[i]
 			key := fmt.Sprintf("level:%s:%d:%s", ctx, i+1, strings.ReplaceAll(w.ops, " ", ","))
-			pos := token.NoPos
-			if fd := g.decls[lv.fn]; fd != nil {
-				pos = fd.Pos()
-			}
+			pos := posOf(lv.fn)
 			if len(lv.issues) > 0 {
 				c.undecided(key, pos, "%s: %v", lv.fn, lv.issues)
 				continue
@@ -363,14 +109,14 @@ func ruleGrammar(c *Ctx) {
 			key := fmt.Sprintf("operands:%s:%s", ctx, strings.Join(lv.ops, ","))
 			switch strings.Join(lv.ops, " ") {
 			case assignOps:
-				c.check(containsStr(lv.rights, "self") && lv.left == next, key, g.decls[entry].Pos(), "assignment: right operand re-enters the assignment level of the same context", "the right-hand side of an assignment is not parsed by the assignment level of the same context (rights "+fmt.Sprint(lv.rights)+"): `a = b = c` would not group to the right, or an assignment inside print would parse `>` as a comparison")
+				c.check(containsStr(lv.rights, "self") && lv.left == next, key, posOf(entry), "assignment: right operand re-enters the assignment level of the same context", "the right-hand side of an assignment is not parsed by the assignment level of the same context (rights "+fmt.Sprint(lv.rights)+"): `a = b = c` would not group to the right, or an assignment inside print would parse `>` as a comparison")
 			case "QUESTION":
 				okArms := len(lv.rights) == 2 && lv.rights[0] == entry && lv.rights[1] == entry
-				c.check(okArms, key, g.decls[entry].Pos(), "?: both arms re-enter the lowest level of the "+ctx+" context ("+entry+")", "the arms of ?: are parsed by "+fmt.Sprint(lv.rights)+" instead of the context's own lowest level "+entry+": `a ? b : c ? d : e` would not group to the right, or (print context) a `>` after the false arm would be taken as a comparison")
+				c.check(okArms, key, posOf(entry), "?: both arms re-enter the lowest level of the "+ctx+" context ("+entry+")", "the arms of ?: are parsed by "+fmt.Sprint(lv.rights)+" instead of the context's own lowest level "+entry+": `a ? b : c ? d : e` would not group to the right, or (print context) a `>` after the false arm would be taken as a comparison")
 			case "MATCH NOT_MATCH":
-				c.check(len(lv.rights) == 1 && lv.rights[0] == lv.left, key, g.decls[entry].Pos(), "~ !~: both operands at the next level (non-associative)", "the right operand of ~ is parsed by "+fmt.Sprint(lv.rights)+" but the left by "+lv.left)
+				c.check(len(lv.rights) == 1 && lv.rights[0] == lv.left, key, posOf(entry), "~ !~: both operands at the next level (non-associative)", "the right operand of ~ is parsed by "+fmt.Sprint(lv.rights)+" but the left by "+lv.left)
 			case "POW":
-				c.check(len(lv.rights) == 1 && lv.rights[0] == "self", key, g.decls[entry].Pos(), "^: right operand re-enters the ^ level (right-associative)", "the right operand of ^ is parsed by "+fmt.Sprint(lv.rights))
+				c.check(len(lv.rights) == 1 && lv.rights[0] == "self", key, posOf(entry), "^: right operand re-enters the ^ level (right-associative)", "the right operand of ^ is parsed by "+fmt.Sprint(lv.rights))
 			default:
 				if lv.assoc == "left" || lv.assoc == "none" {
 					okR := true
@@ -379,7 +125,7 @@ func ruleGrammar(c *Ctx) {
 							okR = false
 						}
 					}
-					c.check(okR && (lv.left == next), key, g.decls[entry].Pos(), fmt.Sprintf("{%s}: operands at the next level %s", strings.Join(lv.ops, " "), lv.left), fmt.Sprintf("{%s}: left operand parsed by %s, right operand(s) by %v: they must be the same next-higher level", strings.Join(lv.ops, " "), lv.left, lv.rights))
+					c.check(okR && (lv.left == next), key, posOf(entry), fmt.Sprintf("{%s}: operands at the next level %s", strings.Join(lv.ops, " "), lv.left), fmt.Sprintf("{%s}: left operand parsed by %s, right operand(s) by %v: they must be the same next-higher level", strings.Join(lv.ops, " "), lv.left, lv.rights))
 				}
 			}
 		}
@@ -403,19 +149,30 @@ func ruleGrammar(c *Ctx) {
 	check("print", printCtx, wantPrint)
 
 	// the print statement parses its arguments and only them with the print-context entry
-	if fd := g.decls["simpleStmt"]; fd != nil {
+	if fn := g.methods["simpleStmt"]; fn != nil {
 		usesPrint := false
-		ast.Inspect(fd.Body, func(n ast.Node) bool {
-			if call, ok := n.(*ast.CallExpr); ok && methodValue(call.Fun) == "exprList" && len(call.Args) == 1 && methodValue(call.Args[0]) == printCtx {
-				usesPrint = true
+		allInstrs(fn, func(in ssa.Instruction) {
+			call, ok := in.(*ssa.Call)
+			if !ok {
+				return
 			}
-			return true
+			cal := call.Call.StaticCallee()
+			if cal == nil || cal.Pkg != g.pkg || g.returnsExpr(cal) {
+				return
+			}
+			for _, a := range call.Call.Args {
+				if mc, ok := a.(*ssa.MakeClosure); ok {
+					if f, ok := mc.Fn.(*ssa.Function); ok && boundMethod(f).Name() == printCtx {
+						usesPrint = true
+					}
+				}
+			}
 		})
-		c.check(usesPrint, "print-args", fd.Pos(), "print/printf arguments are parsed with the print-context grammar", "print/printf arguments are not parsed with the print-context grammar: an unparenthesised > would be a comparison instead of a redirection")
+		c.check(usesPrint, "print-args", fn.Pos(), "print/printf arguments are parsed with the print-context grammar", "print/printf arguments are not parsed with the print-context grammar: an unparenthesised > would be a comparison instead of a redirection")
 	}
 
-	// primary: prefix operators
-	pf := g.decls["primary"]
+	// primary: prefix operators, per token
+	pf := g.methods[primary]
 	if pf == nil {
 		c.undecided("anchor:primary", token.NoPos, "primary not found")
 		return
@@ -426,65 +183,93 @@ func ruleGrammar(c *Ctx) {
 			powFn = lv.fn
 		}
 	}
-	prefix := map[string][]string{}
-	ast.Inspect(pf.Body, func(n ast.Node) bool {
-		cc, ok := n.(*ast.CaseClause)
-		if !ok || cc.List == nil {
-			return true
+	prefix := g.prefixOperands(primary)
+	// every non-error path taken for the token must parse the expected operand
+	all := func(tok string, pred func(seq []string) bool) (bool, string) {
+		seqs, have := prefix[tok]
+		if !have || len(seqs) == 0 {
+			return false, tok + ": no path"
 		}
-		var toks []string
-		for _, e := range cc.List {
-			if t := g.tokName(e); t != "" {
-				toks = append(toks, t)
+		okAll := true
+		var got []string
+		for _, s := range seqs {
+			got = append(got, "["+strings.Join(s, " ")+"]")
+			if !pred(s) {
+				okAll = false
 			}
 		}
-		if len(toks) == 0 {
-			return true
-		}
-		sort.Strings(toks)
-		var callees []string
-		ast.Inspect(&ast.BlockStmt{List: cc.Body}, func(m ast.Node) bool {
-			if call, ok := m.(*ast.CallExpr); ok {
-				if cal := g.callee(call, &gEnv{funcs: map[string]string{}}, "primary-self"); cal != "" && (g.isExprParser(cal) || cal == "optionalLValue") {
-					callees = append(callees, cal)
-				}
+		return okAll, tok + ":" + strings.Join(got, "|")
+	}
+	unOK := powFn != ""
+	var unGot []string
+	for _, t := range []string{"NOT", "ADD", "SUB"} {
+		ok, got := all(t, func(s []string) bool { return len(s) == 1 && s[0] == powFn })
+		unGot = append(unGot, got)
+		unOK = unOK && ok
+	}
+	c.check(unOK, "prefix:unary", pf.Pos(), "unary ! + - parse their operand at the ^ level ("+powFn+") on every path, so -2^2 is -(2^2) and !a^b is !(a^b)", fmt.Sprintf("the unary operators ! + - must parse their operand at the ^ level (%s) on every path; found operand parser(s) %v", powFn, unGot))
+	dOK, dGot := all("DOLLAR", func(s []string) bool { return len(s) >= 1 && s[0] == primary })
+	c.check(dOK, "prefix:dollar", pf.Pos(), "$ takes a primary as its operand", fmt.Sprintf("$ parses its operand with %v instead of primary()", dGot))
+	lpOK, lpGot := all("LPAREN", func(s []string) bool { return len(s) >= 1 && s[0] == general })
+	c.check(lpOK, "prefix:grouping", pf.Pos(), "( ... ) re-enters the general expression grammar", fmt.Sprintf("a parenthesised expression is parsed with %v instead of the general entry %s", lpGot, general))
+	piOK := true
+	var piGot []string
+	for _, t := range []string{"INCR", "DECR"} {
+		ok, got := all(t, func(s []string) bool { return len(s) == 1 && s[0] == "optionalLValue" })
+		piGot = append(piGot, got)
+		piOK = piOK && ok
+	}
+	c.check(piOK, "prefix:incr", pf.Pos(), "prefix ++/-- take an lvalue", fmt.Sprintf("prefix ++/-- parse their operand with %v", piGot))
+	// pendingGetlineLeft hand-off: a non-nil value is stored only by the `| getline` level, and primary() looks
+	// at it before anything can advance the lexer
+	if g.pendField >= 0 {
+		glLevel := ""
+		for _, lv := range chainFor(general) {
+			if strings.Join(lv.ops, " ") == "PIPE" {
+				glLevel = lv.fn
 			}
-			return true
-		})
-		prefix[strings.Join(toks, " ")] = callees
-		return true
-	})
-	un := prefix["ADD NOT SUB"]
-	c.check(len(un) == 1 && un[0] == powFn && powFn != "", "prefix:unary", pf.Pos(), "unary ! + - parse their operand at the ^ level ("+powFn+"), so -2^2 is -(2^2) and !a^b is !(a^b)", fmt.Sprintf("the unary operators ! + - must share one case of primary() and parse their operand at the ^ level (%s); found operand parser(s) %v (cases: %v)", powFn, un, prefixKeys(prefix)))
-	d := prefix["DOLLAR"]
-	c.check(len(d) >= 1 && d[0] == "primary", "prefix:dollar", pf.Pos(), "$ takes a primary as its operand", fmt.Sprintf("$ parses its operand with %v instead of primary()", d))
-	lp := prefix["LPAREN"]
-	c.check(len(lp) >= 1 && lp[0] == general, "prefix:grouping", pf.Pos(), "( ... ) re-enters the general expression grammar", fmt.Sprintf("a parenthesised expression is parsed with %v instead of the general entry %s", lp, general))
-	pi := prefix["DECR INCR"]
-	c.check(len(pi) == 1 && pi[0] == "optionalLValue", "prefix:incr", pf.Pos(), "prefix ++/-- take an lvalue", fmt.Sprintf("prefix ++/-- parse their operand with %v", pi))
-	// pendingGetlineLeft hand-off: set only in getline(), consumed first in primary()
-	if gl := g.decls["getline"]; gl != nil {
+		}
 		setters := map[string]bool{}
-		for name, fd := range g.decls {
-			ast.Inspect(fd.Body, func(n ast.Node) bool {
-				if as, ok := n.(*ast.AssignStmt); ok {
-					for _, l := range as.Lhs {
-						if strings.HasSuffix(types.ExprString(l), ".pendingGetlineLeft") {
-							setters[name] = true
+		for name, fn := range g.methods {
+			name := name
+			allInstrs(fn, func(in ssa.Instruction) {
+				st, ok := in.(*ssa.Store)
+				if !ok {
+					return
+				}
+				fa, ok := st.Addr.(*ssa.FieldAddr)
+				if !ok || fa.Field != g.pendField || !g.isParserPtr(fa.X.Type()) {
+					return
+				}
+				if k, isC := st.Val.(*ssa.Const); isC && k.Value == nil {
+					return // a reset to nil
+				}
+				setters[name] = true
+			})
+		}
+		okSet := len(setters) == 1 && setters[glLevel] && glLevel != ""
+		first := false
+		if eb := pf.Blocks[0]; len(eb.Instrs) > 0 {
+			if iff, ok := eb.Instrs[len(eb.Instrs)-1].(*ssa.If); ok {
+				if bo, ok := iff.Cond.(*ssa.BinOp); ok {
+					for _, side := range []ssa.Value{bo.X, bo.Y} {
+						if ld, ok := side.(*ssa.UnOp); ok && ld.Op == token.MUL {
+							if fa, ok := ld.X.(*ssa.FieldAddr); ok && fa.Field == g.pendField {
+								first = true
+							}
 						}
 					}
 				}
-				return true
-			})
-		}
-		okSet := len(setters) == 2 && setters["getline"] && setters["primary"]
-		first := false
-		if len(pf.Body.List) > 0 {
-			if is, ok := pf.Body.List[0].(*ast.IfStmt); ok && strings.Contains(types.ExprString(is.Cond), "pendingGetlineLeft") {
-				first = true
+			}
+			for _, in := range eb.Instrs {
+				if call, ok := in.(ssa.CallInstruction); ok {
+					if cal := call.Common().StaticCallee(); cal == nil || g.advancer[cal] {
+						first = false
+					}
+				}
 			}
 		}
-		c.check(okSet && first, "getline-handoff", gl.Pos(), "the pending left operand of `| getline` is set only by getline() and consumed first thing in primary()", fmt.Sprintf("the `expr | getline` hand-off is written by %v and/or not consumed at the start of primary(): the left operand could be attached to the wrong expression", keys(setters)))
+		c.check(okSet && first, "getline-handoff", posOf(glLevel), "the pending left operand of `| getline` is set only by the `| getline` level and looked at first thing in primary()", fmt.Sprintf("the `expr | getline` hand-off is written by %v and/or not consumed at the start of primary(): the left operand could be attached to the wrong expression", keys(setters)))
 	}
 }
 
@@ -497,40 +282,3 @@ func prefixKeys(m map[string][]string) []string {
 	return ks
 }
 
-// getlineLevel: the `cond | getline` wrapper.
-func (g *gram) getlineLevel() *gLevel {
-	lv := &gLevel{fn: "getline", assoc: "none", node: "GetlineExpr"}
-	fd := g.decls["getline"]
-	if fd == nil {
-		lv.issues = append(lv.issues, "getline() not found")
-		return lv
-	}
-	env := &gEnv{funcs: map[string]string{}}
-	for _, s := range fd.Body.List {
-		switch x := s.(type) {
-		case *ast.AssignStmt:
-			if len(x.Rhs) == 1 {
-				if call, ok := x.Rhs[0].(*ast.CallExpr); ok {
-					if cal := g.callee(call, env, "getline"); cal != "" && lv.left == "" {
-						lv.left = cal
-					}
-				}
-			}
-		case *ast.IfStmt:
-			if be, ok := x.Cond.(*ast.BinaryExpr); ok && types.ExprString(be.X) == "p.tok" {
-				if t := g.tokName(be.Y); t != "" {
-					lv.ops = append(lv.ops, t)
-				}
-			}
-			ast.Inspect(x.Body, func(n ast.Node) bool {
-				if call, ok := n.(*ast.CallExpr); ok {
-					if cal := g.callee(call, env, "getline"); cal != "" && g.isExprParser(cal) {
-						lv.rights = append(lv.rights, cal)
-					}
-				}
-				return true
-			})
-		}
-	}
-	return lv
-}
